@@ -209,6 +209,30 @@ class Session(object):
         except SecretExponentMissing:
             self.raised = True
 
+    def edit(self, field, pos):
+        """the caller changes one field of the transaction between passes (always away from its
+        current value: the same edit may be made twice)"""
+        tx = self.tx
+        j = pos - 1
+        if field == "ver":
+            tx.version += 1
+        elif field == "lock":
+            tx.lock_time += 1
+        elif field == "oph":
+            tx.txs_in[j].previous_hash = hashlib.sha256(tx.txs_in[j].previous_hash).digest()
+        elif field == "opi":
+            tx.txs_in[j].previous_index += 1
+        elif field == "seq":
+            tx.txs_in[j].sequence -= 1
+        elif field == "out_amt":
+            tx.txs_out[j].coin_value -= 1
+        elif field == "out_spk":
+            tx.txs_out[j].script = bytes(tx.txs_out[j].script) + b"\x61"
+        elif field == "spent_amt":
+            tx.unspents[j].coin_value += 1
+        else:
+            raise ValueError(field)
+
     def clone(self):
         s = copy.copy(self)
         s.tx = copy.deepcopy(self.tx)
@@ -274,6 +298,9 @@ class Session(object):
             return
         if p["mech"] == "create_signed":
             self.create_signed(p)
+            return
+        if p["mech"] == "edit":
+            self.edit(p["field"], p["pos"])
             return
         ic = p.get("ic", "none" if len(p["I"]) == len(self.tx.txs_in) else "list")
         idx = _index_collection(ic, sorted(i - 1 for i in p["I"]))
@@ -388,13 +415,14 @@ def project_input(coin, tx, i, pz, policy_bits):
     from pycoin.coins.SolutionChecker import ScriptError
     from pycoin.encoding.sec import sec_to_public_pair
     g = N.generator
-    out = {"signed": [], "enc": [], "junk": 0}
+    out = {"signed": [], "enc": [], "junk": 0, "nsig": 0}
     digests = {}
     nk = len(pz.keys)
     start = 0     # signatures normally come in key order: try the keys after the last match first
     for blob in unlocking_items(N, tx, i, pz):
         if len(blob) < 9 or blob[0] != 0x30:
             continue
+        out["nsig"] += 1          # signature-shaped: a real, a stale or a placeholder signature
         sb = blob[-1]
         prob = strict_der_problem(blob)
         if prob is not None:
@@ -690,6 +718,7 @@ class Recorder(object):
         e["frame"] = self._frame_digest(tx)
         e["bad"] = tx.bad_solution_count()
         e["raised"] = False
+        e["nsig"] = [p.get("nsig", 0) for p in pr]
         s["ev"].append(e)
         if self.keep_signed and all(e["valid"]):
             s["final"] = copy.deepcopy(tx)        # (tests go on to modify their transactions)
@@ -700,7 +729,8 @@ class Recorder(object):
             if not s["ok"] or not s["ev"]:
                 continue
             out.append({"coin": s["coin"], "shape": [pz.d for pz in s["pzs"]],
-                        "pre": [p["signed"] for p in s["pre"]], "frame": s["frame"], "ev": s["ev"]})
+                        "pre": [p["signed"] for p in s["pre"]], "frame": s["frame"], "nout": len(s["tx"].txs_out),
+                        "ev": s["ev"]})
         return out
 
 
